@@ -26,6 +26,7 @@ type CConfig struct {
 	RoleOps     bool     `json:"role_ops"`     // new governance administrators and the audit-administrator cycle are registered during the run (grant clause of C14)
 	RuleOps     bool     `json:"rule_ops"`     // rule lifecycle: further rules are registered, the master rule is updated through governance (approved or rejected), rules are logged out
 	RefRestart  []int    `json:"ref_restart"`  // profiles with a single replica: it is stopped and reopened after these block indexes
+	KV          bool     `json:"kv,omitempty"` // a user WASM contract with storage is deployed and invoked (succeeding, trapping, running out of gas)
 	BigBlocks   bool     `json:"big_blocks"`   // few cuts: most blocks are filled to the sequencer's limit
 }
 
@@ -131,6 +132,11 @@ func Generate(prop string, r *sim.Rand, tier string) *sim.Plan {
 		n = r.Range(15, 160)
 	}
 	cfg.BigBlocks = r.Chance(0.35)
+	cfg.KV = (prop == "C07" || prop == "C01") && r.Chance(0.5)
+	if cfg.KV && r.Chance(0.8) {
+		// running out of gas means burning the whole limit: a smaller limit keeps those transactions cheap
+		cfg.World.GasLimit = []uint64{1000000, 3000000, 10000000}[r.Intn(3)]
+	}
 	cfg.SplitGroups = prop == "C06"
 	cfg.RuleOps = (prop == "C03" || prop == "C16") && r.Chance(0.5)
 	cfg.RoleOps = prop == "C14" && r.Chance(0.4)
@@ -453,6 +459,9 @@ func (g *gen) step(prop string) []CStep {
 	default: // C01, C02, C04, C06, C07: mixed traffic
 		if prop == "C01" || prop == "C07" {
 			// every transaction kind the node accepts
+			if g.cfg.KV && r.Chance(0.15) {
+				return []CStep{CStep{Op: "kv", A: r.Intn(5), B: r.Intn(3), N: r.Intn(24)}}
+			}
 			switch r.Intn(12) {
 			case 7:
 				return []CStep{CStep{Op: "eth", A: r.Intn(5), B: r.Intn(8), N: r.Intn(11)}}
